@@ -41,7 +41,7 @@ EXPLANATION = ("Exhaustive sub-space (both tiers): every labelled graph up to is
                "Everything else is seeded random / "
                "corpus sampling.  Theorems (coq/props/C11.v, all closed under the global context): C11_vocabulary, C11_aut_count, C11_aut_group, "
                "C11_vf2_contract, C11_vf2_contract_items, C11_orbits_exact, C11_orbits_partition, C11_components, C11_anchors, C11_object_state, C11_wl_never_splits, C11_wl_partition, C11_wfb_sound, "
-               "C11_dedup_sublist, C11_dedup_first_of_class, C11_dedup_idempotent, C11_partial_prune, C11_partial_prune_hosts, C11_prune_complete, C11_rep_ok, C11_prune_complete_aut, C11_prune_first_of_class, C11_prune_same_results, C11_configured_labels_only, C11_key_options, C11_rule_labels, C11_orbit_accuracy, C11_aut_observable, C11_wl_never_splits_reported, C11_orbit_accuracy_all, C11_orbit_order, C11_views, C11_dedup_singletons_sound, C11_dedup_orbit_sets_merge_unrelated, C11_orbits_no_swaps, C11_count_no_swaps, C11_repr_numeral, C11_reported_order_canonical, C11_prune_attr, C11_wl_sweeps, C11_aut_observable_attr, C11_dedup_subset_safe, C11_est_index_state, C11_three_views, C11_prune_same_images.")
+               "C11_dedup_sublist, C11_dedup_first_of_class, C11_dedup_idempotent, C11_partial_prune, C11_partial_prune_hosts, C11_prune_complete, C11_rep_ok, C11_prune_complete_aut, C11_prune_first_of_class, C11_prune_same_results, C11_configured_labels_only, C11_key_options, C11_rule_labels, C11_orbit_accuracy, C11_aut_observable, C11_wl_never_splits_reported, C11_orbit_accuracy_all, C11_orbit_order, C11_views, C11_dedup_singletons_sound, C11_dedup_orbit_sets_merge_unrelated, C11_orbits_no_swaps, C11_count_no_swaps, C11_repr_numeral, C11_reported_order_canonical, C11_prune_attr, C11_wl_sweeps, C11_aut_observable_attr, C11_dedup_subset_safe, C11_est_index_state, C11_three_views, C11_prune_same_images, C11_lone_atoms_fixed.")
 TRUSTED_BASE = [
     "Coq 8.16.1 kernel + vm_compute (no native_compute)",
     "hand-written model coq/model/C11_Model.v tied to synkit/Graph/Matcher/{automorphism,auto_est,dedup_matches}.py and the pruning call of "
@@ -839,13 +839,15 @@ def _oracle_hist(case):
     return fails
 
 
-CASE_CPU_LIMIT = 30.0     # CPU seconds for ONE impl() / oracle() / coq_case() call (largest on the unchanged tree: 5 s, the 120-atom chain)
+CASE_CPU_LIMIT = None      # the framework's per-case budget (harness/main.py): off - every call is bounded here, per kind, and the
+                           # encoder / generator calls into the library as well (same timer: ITIMER_PROF; the previous handler is restored)
+CALL_CPU_LIMIT = 30.0     # CPU seconds for ONE impl() / oracle() / coq_case() call (largest on the unchanged tree: 5 s, the 120-atom chain)
 PRUNE_CPU_LIMIT = 400.0   # rule applications: the oracle glues EVERY raw match (thorough tier: whole-molecule templates with hundreds of
                           # them; measured maximum 112 CPU-s for uspto21/full/bwd, everything else below 7)
 
 
 def _limit(case):
-    return PRUNE_CPU_LIMIT if case.get("kind") == "prune" or case.get("script") == "prune" else CASE_CPU_LIMIT
+    return PRUNE_CPU_LIMIT if case.get("kind") == "prune" or case.get("script") == "prune" else CALL_CPU_LIMIT
 
 
 def impl(case):
